@@ -67,6 +67,13 @@ type caseResult struct {
 	nulls      int
 	lists      int
 	frags      int
+	skippedSels int
+	// the model's evaluation of the decidable hypotheses of gen_compiles_in_wording and of its conclusion
+	envReply   string
+	hypOK      bool // schemaOK ∧ enumValuesOK ∧ identsOK ∧ every definition inside defOKW
+	modelGen   bool
+	modelWF    bool // declsWF ∧ pkgScopeWF of the model's output
+	modelPkgWF bool
 	failures   []failure
 }
 
@@ -169,6 +176,8 @@ func (h *harness) evalCases(cases []*Case) []*caseResult {
 	schemas := make([]*graphql.Schema, len(cases))
 	var modelLines []string
 	var modelIdx []int
+	var envLines []string
+	var envIdx []int
 	for i, c := range cases {
 		r := &caseResult{c: c}
 		res[i] = r
@@ -254,6 +263,10 @@ func (h *harness) evalCases(cases []*Case) []*caseResult {
 			}
 			modelLines = append(modelLines, hx.N("gen", c.Schema.Sexp(), hx.N("docs", docs...)).String())
 			modelIdx = append(modelIdx, i)
+			if r.allValid {
+				envLines = append(envLines, hx.N("env", c.Schema.Sexp(), hx.N("docs", docs...)).String())
+				envIdx = append(envIdx, i)
+			}
 		}
 	}
 	if h.model != nil && len(modelLines) > 0 {
@@ -264,6 +277,23 @@ func (h *harness) evalCases(cases []*Case) []*caseResult {
 		}
 		for k, i := range modelIdx {
 			res[i].modelReply = replies[k]
+		}
+		if len(envLines) > 0 {
+			replies, err := h.model.AskAll(envLines)
+			if err != nil {
+				fmt.Fprintln(os.Stderr, "model driver failed:", err)
+				os.Exit(2)
+			}
+			for k, i := range envIdx {
+				r := res[i]
+				r.envReply = replies[k]
+				if x, err := hx.ParseSexp(replies[k]); err == nil && x.IsList && len(x.List) == 8 {
+					b := func(j int) bool { return x.List[j].Atom == "true" }
+					r.hypOK = b(1) && b(2) && b(3) && b(4)
+					r.modelGen, r.modelPkgWF = b(5), b(7)
+					r.modelWF = b(6) && b(7)
+				}
+			}
 		}
 	}
 	// ---- per case: oracles on status/output, tie on the declarations
@@ -308,6 +338,22 @@ func (h *harness) evalCases(cases []*Case) []*caseResult {
 				}
 				pkgs = append(pkgs, scratchPkg{Name: pkg, Src: r.toolOut, Ops: ops})
 			}
+		}
+		// the scope theorems on the real binary: the decidable hypotheses of gen_compiles_in_wording hold for
+		// this input (evaluated by the model driver) ⇒ the real output must exist and type-check
+		if h.model != nil && r.allValid && r.hypOK && r.modelGen && !r.toolCrash {
+			if r.toolExit != 0 || r.typeErr != "" {
+				kind := "correspondence"
+				if r.inEnv {
+					kind = "property"
+				}
+				r.add(kind, "theorem-instance", "the hypotheses of gen_compiles_in_wording hold (schemaOK, enumValuesOK, identsOK, defOKW) but the tool exited %d / type-check: %s", r.toolExit, r.typeErr)
+			}
+		}
+		// the model-level "compiles" (declsWF ∧ pkgScopeWF of the model's output) must imply that go/types accepts
+		// the real output (otherwise the model's notion of well-formedness misses a Go rule)
+		if h.model != nil && r.allValid && r.modelGen && r.modelWF && r.toolExit == 0 && !r.toolCrash && r.typeErr != "" && !(r.hypOK && r.modelGen) {
+			r.add("correspondence", "model-wf", "the model's output is well-formed (declsWF, pkgScopeWF) but the real output does not type-check: %s", r.typeErr)
 		}
 		// tie (a)
 		if h.model != nil {
@@ -431,6 +477,7 @@ func (h *harness) evalCases(cases []*Case) []*caseResult {
 				r.nulls += lc.nulls
 				r.lists += lc.lists
 				r.frags += lc.frags
+				r.skippedSels += lc.skipped
 				if len(lc.errs) > 0 {
 					r.add("property", "leaf", "operation %s, world %d: %s (data %s)", in.op, in.w, strings.Join(lc.errs, " | "), clip(string(in.data), 400))
 				}
@@ -537,9 +584,9 @@ func firstLines(s string, n int) string {
 // ---- reporting, classification, shrinking ----------------------------------------------------------
 
 // findingKey attaches an open finding to a failing case (narrow predicates on case + failure mode).
-// C20 has no open finding at present.
+// Open: F-20i / F-20j / F-20k (identifier scopes, see scope.go).
 func findingKey(r *caseResult, f *failure) string {
-	return ""
+	return scopeFindingKey(r, f)
 }
 
 func signature(r *caseResult) string {
@@ -826,6 +873,13 @@ func (h *harness) account(r *caseResult) {
 	run.CountN("leaves-compared", r.leaves)
 	run.CountN("nulls-compared", r.nulls)
 	run.CountN("fragments-applied", r.frags)
+	run.CountN("selections-removed-by-directive", r.skippedSels)
+	if r.envReply != "" {
+		run.Count(fmt.Sprintf("lean-hypotheses:%v/harness-envelope:%v", r.hypOK, r.inEnv))
+		if r.modelGen && r.toolExit == 0 {
+			run.Count(fmt.Sprintf("model-wf:%v/pkg:%v/go-types-ok:%v", r.modelWF, r.modelPkgWF, r.typeErr == ""))
+		}
+	}
 	hasMode := func(kind, mode string) (bool, string) {
 		for i := range r.failures {
 			f := &r.failures[i]
@@ -862,6 +916,17 @@ func (h *harness) account(r *caseResult) {
 			bad2, what2 = hasMode("property", "leaf")
 			run.Oblige("oracle: json.Unmarshal of the executor's data succeeds and every selected leaf is held (cases matching an open finding excepted)", "oracle", r.decoded, !(bad || bad2), what+what2)
 		}
+	}
+	if r.envReply != "" && r.modelGen && r.modelWF && r.toolExit == 0 {
+		bad, what := hasMode("correspondence", "model-wf")
+		bad2, what2 := hasMode("property", "theorem-instance")
+		bad3, what3 := hasMode("correspondence", "theorem-instance")
+		run.Oblige("model-level compiles (declsWF ∧ pkgScopeWF of the model's output) ⇒ go/types accepts the binary's output", "correspondence", 1, !(bad || bad2 || bad3), what+what2+what3)
+	}
+	if r.envReply != "" && r.hypOK && r.modelGen {
+		bad, what := hasMode("property", "theorem-instance")
+		bad2, what2 := hasMode("correspondence", "theorem-instance")
+		run.Oblige("theorem instance on the real binary: identsOK ∧ defOKW ∧ schemaOK ∧ enumValuesOK (decided by the model driver for this input) ⇒ the tool's output exists and type-checks (gen_compiles_in_wording)", "oracle", 1, !(bad || bad2), what+what2)
 	}
 	if !r.allValid {
 		bad, what := hasMode("property", "invalid-accepted")
